@@ -274,3 +274,189 @@ def hash_seed_probe(eng, tier, seed):
 
 
 EXTRA_CHECKS = [determinism_census, hash_seed_probe]
+
+
+# ------------------------------------------------------------------------------------------------ bounded stand-ins
+# Functions the engine cannot reach (sets of objects mutated through parameters, nested classes, recursion; pathlib and
+# the file system): their contracts are evaluated natively on the real functions only.  Reported under coverage.bounded,
+# never counted as obligations, never used by a proof.
+_BOUNDED = "bounded stand-in: evaluated natively on the real function only; no proof uses this contract"
+
+
+def _closure(desc, targets):
+    """expected dependency closure from the description: (names of targets, names of the rest) or None on any error"""
+    by_key = {}
+    for f in desc["files"]:
+        by_key.setdefault((f["name"].lower(), tuple(f["version"])), []).append(f)
+
+    def key(f):
+        return "ns.%s.%d.%d" % (f["name"], f["version"][0], f["version"][1])
+
+    seen, order, todo = set(), [], list(targets)
+    while todo:
+        f = todo.pop()
+        if key(f) in seen:
+            continue
+        seen.add(key(f))
+        order.append(f)
+        if f["bad"]:
+            return None
+        for rname, rver in f["refs"]:
+            short = rname.split(".")[-1]
+            if rname.count(".") > 1 or (rname.count(".") == 1 and not rname.startswith("ns.")):
+                return None
+            cands = by_key.get((short.lower(), tuple(rver)), [])
+            if len(cands) != 1 or cands[0]["name"] != short or cands[0] is f:
+                return None
+            todo.append(cands[0])
+    tk = {key(f) for f in targets}
+    return tk, {key(f) for f in order} - tk
+
+
+@contract("pydsdl._namespace_reader.read_definitions", props=P)
+class _ReadDefinitions:
+    verify = False
+    assumed = _BOUNDED
+    may_raise = ["Error"]
+
+    def post(s):
+        if smt():
+            return {}
+        d, t = list(s.result.direct), list(s.result.transitive)
+        key = lambda c: "%s.%d.%d" % (c.full_name, c.version.major, c.version.minor)
+        rank = lambda c: (c.full_name, -c.version.major, -c.version.minor)
+        exp = s.expected
+        return {
+            "direct-transitive-disjoint": not (set(map(key, d)) & set(map(key, t))),
+            "no-duplicates": len(set(map(key, d))) == len(d) and len(set(map(key, t))) == len(t),
+            "sorted": d == sorted(d, key=rank) and t == sorted(t, key=rank),
+            "targets-are-direct": exp is None or set(map(key, d)) == exp[0],
+            "rest-of-closure-is-transitive": exp is None or set(map(key, t)) == exp[1],
+            "one-object-per-path": len({c.source_file_path for c in d + t}) == len(d + t),
+        }
+
+
+def _gen_read_defs(rng, i):
+    from .c09 import _gen_namespace
+
+    desc = _gen_namespace(rng, i)
+    n = len(desc["files"])
+    desc["targets"] = sorted(rng.sample(range(n), rng.choice([1, 1, 2, min(3, n)]) if n >= 2 else 1))
+    if rng.random() < 0.2:
+        desc["targets"] = desc["targets"] + desc["targets"][:1]  # a target listed twice
+    return desc
+
+
+def _build_read_defs(desc):
+    from .c09 import _materialise
+    from pydsdl import _namespace_reader, _dsdl
+
+    defs = _materialise(desc)
+    targets = [defs[k] for k in desc["targets"]]
+    lookup = _dsdl.file_sort(defs)
+    expected = _closure(desc, [desc["files"][k] for k in desc["targets"]])
+    return (lambda: _namespace_reader.read_definitions(targets, lookup, None, True)), {
+        "target_definitions": targets, "lookup_definitions": lookup, "expected": expected}
+
+
+@contract("pydsdl._dsdl.normalize_paths_argument_to_list", props=P)
+class _NormalizePaths:
+    verify = False
+    assumed = _BOUNDED
+    raises = {"TypeError": lambda s: True if smt() else (
+        s.arg is not None and not isinstance(s.arg, (str, __import__("pathlib").Path)) and (
+            not hasattr(s.arg, "__iter__") or any(not isinstance(x, (str, __import__("pathlib").Path)) for x in s.arg)))}
+
+    def post(s):
+        if smt():
+            return {}
+        from pathlib import Path
+
+        a = s.arg
+        items = [] if a is None else [a] if isinstance(a, (str, Path)) else list(a)
+        want = []
+        for x in items:
+            if Path(x) not in want:
+                want.append(Path(x))
+        return {"order-preserving-deduplication": list(s.result) == want,
+                "all-paths": all(isinstance(x, Path) for x in s.result)}
+
+
+def _gen_paths(rng, i):
+    pool = ["a", "a/b", "./a", "/x/y", "a", "b", "a/b"]
+    kind = rng.choice(["none", "str", "path", "list", "list", "list", "bad", "badlist"])
+    return {"kind": kind, "items": [[rng.choice(pool), rng.random() < 0.5] for _ in range(rng.choice([0, 1, 2, 3, 5]))]}
+
+
+def _build_paths(desc):
+    from pathlib import Path
+    from pydsdl import _dsdl
+
+    k = desc["kind"]
+    items = [Path(p) if as_path else p for p, as_path in desc["items"]]
+    arg = None if k == "none" else "a/b" if k == "str" else Path("a/b") if k == "path" else 42 if k == "bad" else \
+        items + [3.5] if k == "badlist" else items
+    return (lambda: _dsdl.normalize_paths_argument_to_list(arg)), {"arg": arg, "namespaces_or_namespace": arg}
+
+
+@contract("pydsdl._namespace._ensure_no_namespace_name_collisions_or_nested_root_namespaces", props=P)
+class _RootDirs:
+    verify = False
+    assumed = _BOUNDED
+
+    @staticmethod
+    def _bad(s, need_nested):
+        ds = sorted({d.resolve() for d in s.directories})
+        out = False
+        for a in ds:
+            for b in ds:
+                if a != b:
+                    nested = b in a.parents
+                    clash = (not s.allow_name_collisions) and a.name.lower() == b.name.lower()
+                    out = out or nested or clash
+        return out
+
+    # statement: rejected with InvalidDefinitionError exactly when one directory lies inside another or - if name
+    # collisions are disallowed - two distinct ones have the same name ignoring case
+    raises = {"InvalidDefinitionError": lambda s: True if smt() else _RootDirs._bad(s, False)}
+
+
+def _gen_dirs(rng, i):
+    pool = ["r1/uavcan", "r2/uavcan", "r2/UAVCAN", "r1/uavcan/node", "r3/vendor", "r1/uavcan/../uavcan", "r3/vendor/deep/x"]
+    return {"dirs": rng.sample(pool, rng.choice([1, 2, 2, 3, 4])), "allow": rng.random() < 0.5}
+
+
+def _build_dirs(desc):
+    import os
+    from pathlib import Path
+    from pydsdl import _namespace
+
+    base = Path(_scratch_dir()) / "dirs"
+    dirs = []
+    for d in desc["dirs"]:
+        os.makedirs(base / d.replace("/../uavcan", ""), exist_ok=True)
+        dirs.append(base / d)
+    return (lambda: _namespace._ensure_no_namespace_name_collisions_or_nested_root_namespaces(dirs, desc["allow"])), {
+        "directories": dirs, "allow_name_collisions": desc["allow"]}
+
+
+NATIVE.add("pydsdl._namespace_reader.read_definitions", _gen_read_defs, _build_read_defs)
+NATIVE.add("pydsdl._dsdl.normalize_paths_argument_to_list", _gen_paths, _build_paths)
+NATIVE.add("pydsdl._namespace._ensure_no_namespace_name_collisions_or_nested_root_namespaces", _gen_dirs, _build_dirs)
+NATIVE_BUDGET = {"quick": 150, "thorough": 2000}
+
+NOT_COVERED = [
+    "rglob completeness (exactly one definition per *.dsdl / *.uavcan file under the root), symlinks, relative / absolute "
+    "spelling of directory arguments, enumeration order of the operating system: file system, out of reach",
+    "_read_definitions / read_definitions bookkeeping (direct and transitive disjoint, level-0 targets in direct, one object "
+    "per path, results sorted), normalize_paths_argument_to_list, "
+    "_ensure_no_namespace_name_collisions_or_nested_root_namespaces: only bounded native stand-ins (coverage.bounded); the "
+    "engine does not model sets of objects mutated through parameters, nested visitor classes and pathlib",
+    "that read_files yields the same types as read_namespace for the same files",
+]
+EXPLANATION = ("file_sort / get_definition_ordering_rank are proved against the order of the statement relative to the "
+               "assumed contract of sorted(); a structural census proves that no hash-ordered iteration reaches a result "
+               "without a stated reason; everything else of C10 is bounded or not covered.")
+ASSUMPTIONS = ["library contract of sorted(): stable permutation ordered by the key (pyvc/libmodel.py bi_sorted)",
+               "determinism census: sets are recognised syntactically (set()/set display/set comprehension/annotation "
+               "set[...]) inside one function; the reasons in JUSTIFIED are arguments, cited with the contracts they rest on"]
